@@ -31,6 +31,7 @@ import (
 	"github.com/wmnsk/go-pfcp/ie"
 	"github.com/wmnsk/go-pfcp/message"
 	"google.golang.org/grpc"
+	"google.golang.org/grpc/connectivity"
 	"google.golang.org/protobuf/types/known/anypb"
 )
 
@@ -763,6 +764,27 @@ func (w *l1World) doEvent(ev l1Event) (obs map[string]interface{}) {
 			if c, ok := w.conns[ev.Conn]; ok {
 				c.Shutdown()
 			}
+		case "dp_down":
+			// the BESS daemon goes away (crash / restart of the datapath): its gRPC server stops
+			w.gs.Stop()
+			for i := 0; i < 600 && w.b.conn.GetState() == connectivity.Ready; i++ {
+				time.Sleep(5 * time.Millisecond)
+			}
+			obs["dp_state"] = w.b.conn.GetState().String()
+		case "dp_up":
+			lis, err := net.Listen("tcp", w.addr)
+			if err != nil {
+				obs["boot_err"] = err.Error()
+				return
+			}
+			w.gs = grpc.NewServer()
+			pb.RegisterBESSControlServer(w.gs, w.srv)
+			go func() { _ = w.gs.Serve(lis) }()
+			for i := 0; i < 2000 && w.b.conn.GetState() != connectivity.Ready; i++ {
+				w.b.conn.Connect()
+				time.Sleep(5 * time.Millisecond)
+			}
+			obs["dp_state"] = w.b.conn.GetState().String()
 		case "restart":
 			if w.b != nil && w.b.conn != nil {
 				w.b.conn.Close()
@@ -857,7 +879,7 @@ func init() {
 		if err != nil {
 			return map[string]interface{}{"world_err": err.Error()}, nil
 		}
-		defer w.gs.Stop()
+		defer func() { w.gs.Stop() }()
 		obs := []interface{}{}
 		for _, ev := range in.Events {
 			o := w.doEvent(ev)
